@@ -21,9 +21,9 @@ from pathlib import Path
 
 VERIF = Path(__file__).resolve().parent.parent
 REPO = Path(os.environ.get("VERIF_REPO", "/repo"))
-LEAN_DIR = VERIF / "lean"
-WORK = VERIF / "work"
-EVIDENCE = VERIF / "evidence"
+LEAN_DIR = Path(os.environ.get("VERIF_LEAN_DIR", VERIF / "lean"))
+WORK = Path(os.environ.get("VERIF_WORK", VERIF / "work"))
+EVIDENCE = Path(os.environ.get("VERIF_EVIDENCE", VERIF / "evidence"))
 KNOWN_FINDINGS = VERIF / "known_findings.jsonl"
 DRIVER_BIN = LEAN_DIR / ".lake" / "build" / "bin" / "driver"
 GUARD = "STEPUP_CORE_VERIF"
